@@ -70,7 +70,13 @@ impl RecvRun {
 
     pub fn wall(&self, t_us: u64) -> std::time::SystemTime {
         let t_us = self.freeze_wall.unwrap_or(t_us);
-        systime_us((t_us as i128 + self.offset_us as i128).max(0) as u64)
+        // (a receiver clock before 1970 is a SystemTime before the UNIX epoch)
+        let v = t_us as i128 + self.offset_us as i128;
+        if v >= 0 {
+            systime_us(v as u64)
+        } else {
+            std::time::UNIX_EPOCH - Duration::from_micros((-v) as u64)
+        }
     }
 
     /// Push one datagram; returns whether flute accepted it (Ok).
